@@ -51,49 +51,52 @@ def account(L, T, text, simple):
             if a:
                 names_by_key[k].append(gen.lw(a))
     known = {k for k, _, _ in T}
-    pos = 0
     lic_tokens = []
 
     def eat_symbol(sym, pos):
+        """All positions at which the words standing for this symbol may end when they start at pos (a known license may be
+        written by its key or by any alias: several candidates can fit, e.g. key 'gnu' and alias 'gnu only')."""
+        out = set()
         if sym.key in known and isinstance(sym, le.LicenseSymbol):
             for cand in names_by_key[sym.key]:
-                if words[pos:pos + len(cand)] == cand and cand:
-                    return pos + len(cand)
-            # a known key may also have been typed by an unknown-word run identical to the key
-            return None
+                if cand and words[pos:pos + len(cand)] == cand:
+                    out.add(pos + len(cand))
+            return out
         cand = [w.lower() for w in gen.words_of(sym.key)]
         raw = gen.words_of(sym.key)
         if words[pos:pos + len(cand)] == cand:
             # verbatim: compare with the original words of the text
             orig = gen.words_of(text)[pos:pos + len(cand)]
-            if orig != raw:
-                return None
-            return pos + len(cand)
-        return None
+            if orig == raw:
+                out.add(pos + len(cand))
+        return out
 
+    # the set of word positions reachable after each token (the statement is existential over the names used)
+    reach = {0}
     for tok, tstr, tpos in toks:
+        nxt = set()
         if isinstance(tok, le.LicenseWithExceptionSymbol):
-            p1 = eat_symbol(tok.license_symbol, pos)
-            if p1 is None or p1 >= len(words) or words[p1] != 'with':
-                return 'WITH token %r does not account for the words at %d' % (tstr, pos), 'ok'
-            p2 = eat_symbol(tok.exception_symbol, p1 + 1)
-            if p2 is None:
-                return 'WITH token %r does not account for the words at %d' % (tstr, pos), 'ok'
-            pos = p2
+            for pos in reach:
+                for p1 in eat_symbol(tok.license_symbol, pos):
+                    if p1 < len(words) and words[p1] == 'with':
+                        nxt |= eat_symbol(tok.exception_symbol, p1 + 1)
+            if not nxt:
+                return 'WITH token %r does not account for the words at %r' % (tstr, sorted(reach)), 'ok'
             lic_tokens.append(tok)
         elif isinstance(tok, le.BaseSymbol):
-            p1 = eat_symbol(tok, pos)
-            if p1 is None:
-                return 'license token %r (%r) does not account for the words %r' % (tstr, tok, words[pos:pos + 4]), 'ok'
-            pos = p1
+            for pos in reach:
+                nxt |= eat_symbol(tok, pos)
+            if not nxt:
+                return 'license token %r (%r) does not account for the words %r' % (tstr, tok, words[min(reach):min(reach) + 4]), 'ok'
             lic_tokens.append(tok)
         else:
             kw = {le.TOKEN_AND: 'and', le.TOKEN_OR: 'or', le.TOKEN_LPAR: '(', le.TOKEN_RPAR: ')'}.get(tok)
-            if kw is None or pos >= len(words) or words[pos] != kw:
-                return 'operator token %r does not match the word at %d' % (tstr, pos), 'ok'
-            pos += 1
-    if pos != len(words):
-        return 'words %r of the input are not accounted for by any token' % (words[pos:],), 'ok'
+            nxt = {pos + 1 for pos in reach if kw is not None and pos < len(words) and words[pos] == kw}
+            if not nxt:
+                return 'operator token %r does not match the word at %r' % (tstr, sorted(reach)), 'ok'
+        reach = nxt
+    if len(words) not in reach:
+        return 'words %r of the input are not accounted for by any token' % (words[max(reach):],), 'ok'
     lits = expr.get_literals()
     if len(lits) != len(lic_tokens) or any(a != b for a, b in zip(lits, lic_tokens)):
         return 'licenses of the expression %r differ from the license tokens %r' % (lits, lic_tokens), 'ok'
